@@ -22,6 +22,49 @@ Theorem c05_too_old : forall x s,
 Proof. exact too_old_rejected. Qed.
 Print Assumptions c05_too_old.
 
+(* ---- the whole message (strengthening round 2): the SHAPE of the message is quantified too — how the Response
+   is delivered (HTTP-POST, HTTP-Redirect, SOAP = the synchronous path, PAOS), its Destination (own / absent /
+   somebody else's), Conditions or none, any number of bearer SubjectConfirmations (with or without data) and any
+   number of AuthnStatements.  Identity only when now is inside the Conditions window, inside the window of SOME
+   bearer confirmation with ordered bounds, not later than ANY SessionNotOnOrAfter (all plus skew) and the
+   IssueInstant is fresh — over every delivery; the expiry reported is a SessionNotOnOrAfter when one is present,
+   otherwise the Conditions NotOnOrAfter; strictly inside everything (one AuthnStatement, a delivery the SP can
+   unpack, not addressed to somebody else) it is accepted. *)
+Theorem c05_message_validity : forall x, 0 < xnow x - xskew x -> xspec x (xaccept x).
+Proof. exact xvalidity_holds. Qed.
+Print Assumptions c05_message_validity.
+
+Theorem c05_message_spec_reflect : forall x v, xspec_b x v = true <-> xspec x v.
+Proof. exact xspec_b_iff. Qed.
+Print Assumptions c05_message_spec_reflect.
+
+(* nothing was loosened: on the old shape the wide model is [accept] and the wide property is [spec] *)
+Theorem c05_message_widens_model : forall x, xaccept (widen x) = accept x.
+Proof. exact xaccept_widen. Qed.
+Print Assumptions c05_message_widens_model.
+
+Theorem c05_message_widens_spec : forall x v, xspec (widen x) v <-> spec x v.
+Proof. exact xspec_widen. Qed.
+Print Assumptions c05_message_widens_spec.
+
+(* the delivery (binding, Destination absent or own, assertion in the clear or encrypted) does not matter *)
+Theorem c05_delivery_independent : forall x b d e,
+  unravels (m_binding (xm x)) = true -> m_destination (xm x) <> Some false ->
+  unravels b = true -> d <> Some false ->
+  xaccept (redeliver b d e x) = xaccept x.
+Proof. exact delivery_independent. Qed.
+Print Assumptions c05_delivery_independent.
+
+Theorem c05_stale_issue_instant : forall x,
+  Z.abs (sec (m_issue (xm x)) - xnow x) > 86400 + timeslack (xatd x) -> xaccept x = Reject.
+Proof. exact stale_issue_rejected. Qed.
+Print Assumptions c05_stale_issue_instant.
+
+Theorem c05_any_session_expired : forall x s,
+  In (Some s) (m_statements (xm x)) -> xnow x > fst s + timeslack (xatd x) -> xaccept x = Reject.
+Proof. exact any_session_expired_rejected. Qed.
+Print Assumptions c05_any_session_expired.
+
 (* tie to the source TEXT: validate.validate_on_or_after / validate_before as translated from /repo's
    current source on this run (coq/gen/C05Src.v, harness/py2coq.py) compute the model's functions, for
    every clock value, skew and bound; the clock and the timestamp parser are parameters *)
@@ -133,6 +176,22 @@ Theorem c05_source2_issue_instant_ok :
     = PBool (issue_instant_ok now (f_slack r) (f_issue r)).
 Proof. exact src2_issue_instant_ok_is_model. Qed.
 Print Assumptions c05_source2_issue_instant_ok.
+
+(* StatusResponse._verify: whatever the delivery (asynchop or not), whatever the Destination, a Response of version
+   2.0 goes on only when issue_instant_ok() says so; the Destination matters on the asynchronous path only *)
+Theorem c05_source2_verify :
+  forall (issue_instant_ok_ status_ok float_ : pyval -> pyval) (two : pyval) (r : vself) (fresh : bool) (status : outcome),
+  (forall d, v_dest r = Some d -> is_empty d = false) ->
+  issue_instant_ok_ (enc_v r) = PBool fresh -> status_ok (enc_v r) = enc_outcome status ->
+  src2_verify issue_instant_ok_ status_ok float_ two (enc_v r) = m_verify (v_async r) (dest_class r) fresh status.
+Proof. exact src2_verify_is_model. Qed.
+Print Assumptions c05_source2_verify.
+
+Theorem c05_source2_verify_is_verify_ok : forall n sl m,
+  py_truthy (m_verify (asynchop (m_binding m)) (m_destination m) (issue_instant_ok n sl (m_issue m)) (ORet true))
+  = verify_ok n sl m.
+Proof. exact m_verify_is_verify_ok. Qed.
+Print Assumptions c05_source2_verify_is_verify_ok.
 
 Theorem c05_source2_authn_statement_ok :
   forall (text_of : stamp -> String.string) (to_secs : pyval -> pyval) (aud : pyval),
